@@ -183,7 +183,9 @@ def run(tier):
             flatten(tm, h, root, flat)
             text = db.text_of_tokens(flat)
             fn_sp = F.fn(P + "Deb822::" + {"add": "add_paragraph", "insert": "insert_paragraph", "remove": "remove_paragraph"}[op[0]])["sp"]
-            got_paras, err = split_by_dfa(flat)
+            import c07
+            re_toks = c07.relex(F, flat)
+            got_paras, err = split_by_dfa(re_toks) if re_toks is not None else (None, "the printed text cannot be re-lexed")
             C.ob("C05/printed-wellformed", label, err is None, "the document prints %r which does not re-read as the same paragraphs: %s" % (text, err), fn_sp)
             if err is None:
                 C.ob("C05/printed-paragraphs", label, got_paras == model, "the printed document %r re-reads as paragraphs %s, the list model has %s" % (text, got_paras, model), fn_sp)
